@@ -500,6 +500,12 @@ class Interp:
             kwargs = {k: wrap(v) for k, v in kwargs.items()}
             if f is bool and len(args) == 1 and isinstance(args[0], GenList):
                 return True
+            if (f is str or f is repr) and len(args) == 1 and not kwargs and isinstance(args[0], (Obj, _NativeModel)) \
+                    and getattr(args[0], "cls", None) in self.prog.classes:
+                # repr(x) / str(x) of an instance of a program class: the program's own __repr__ / __str__ (str falls back to __repr__)
+                m = (self._dunder(args[0], "__str__") if f is str else None) or self._dunder(args[0], "__repr__")
+                if m is not None:
+                    return self.call_value(m, [], {}, node)
             if f is str and len(args) == 1 and not kwargs and isinstance(args[0], ExcVal) and args[0].attrs is None \
                     and args[0].tname in BUILTIN_EXC_BASES:
                 a = args[0].args           # BaseException.__str__
@@ -1759,7 +1765,16 @@ class Interp:
                     except Exception as ex:
                         raise Raised(ExcVal(type(ex).__name__, ex.args), v)
                 else:
-                    parts.append(f"<{type(x).__name__}>")
+                    txt = None
+                    if isinstance(x, (Obj, _NativeModel)) and getattr(x, "cls", None) in self.prog.classes and not spec:
+                        # the program's own __repr__ / __str__ (messages are compared by nobody, but a value built this way may be a key)
+                        m = (None if v.conversion == 114 else self._dunder(x, "__str__")) or self._dunder(x, "__repr__")
+                        if m is not None:
+                            try:
+                                txt = self.call_value(m, [], {}, v)
+                            except (Unsupported, Raised):
+                                txt = None
+                    parts.append(txt if isinstance(txt, str) else f"<{type(x).__name__}>")
         return "".join(parts)
 
     def ev_FormattedValue(self, e, env):
